@@ -22,6 +22,11 @@ RFC1918 = ["10.0.0.0/8", "172.16.0.0/12", "192.168.0.0/16"]
 MASKS = sorted(set([((1 << 32) - 1) ^ ((1 << k) - 1) for k in range(33)] + [(1 << k) - 1 for k in range(33)]))
 
 
+# every octet 0 or 255 but not a contiguous (inverse) mask: ACL wildcards such as 0.255.0.255 - ordinary addresses to netconan
+OCTET_WILDCARDS = [v for v in (sum((255 if (m >> (3 - i)) & 1 else 0) << (8 * (3 - i)) for i in range(4)) for m in range(16))
+                   if v not in (0x00000000, 0xFF000000, 0xFFFF0000, 0xFFFFFF00, 0xFFFFFFFF, 0x00FFFFFF, 0x0000FFFF, 0x000000FF)]
+
+
 def is_mask_ref(v):
     """Independent mask predicate: binary form is 1*0* or 0*1*."""
     s = format(v, "032b")
